@@ -247,3 +247,44 @@ Proof.
   exact (reduce_is_the_reduction_over_the_brackets V inp F BC CC f din dout Hok R HR X HX rho).
 Qed.
 Print Assumptions C01_reduction_is_the_reduction_over_the_brackets.
+
+(* dot on the einsum path (the default numpy backend).  Model/Lower.v ([lower_einsum_dot]): both operands are reshaped to
+   their leaf axes and handed to einsum with a subscript string built by giving every axis name the next free letter at its
+   first occurrence; einsum's result - one dimension per leaf axis of the output - is reshaped to the output dimensions.
+   einsum itself is numpy's (trusted).  Around it, for every nesting, number of axes and size: each operand is seen at its
+   leaf coordinates, the letters identify the axes faithfully (the three words come from ONE table in which different names
+   have different letters, so a name has the same letter wherever it occurs), and what einsum returns at the leaf
+   coordinates of the output is found at the position the output expression denotes. *)
+From EinxV Require Import Proofs.EinsumProofs.
+Theorem C01_einsum_operand_is_the_leaf_view :
+  forall (V : Type) (inp : nat -> entries V) F BC CC k d rho v,
+  forallb plain d = true -> in_bounds rho d -> In (map (pidx rho) d, v) (inp k) ->
+  In (map (lookup rho) (lnames d), v) (meval V inp F BC CC (ein_operand k d)).
+Proof. exact ein_operand_is_the_leaf_view. Qed.
+Print Assumptions C01_einsum_operand_is_the_leaf_view.
+
+Theorem C01_einsum_letters_identify_the_axes : forall n1 n2 no : list N,
+  exists (letter : N -> nat),
+    let '(k1, v1) := ein_assign [] n1 in
+    let '(k2, v2) := ein_assign v1 n2 in
+    let '(ko, _) := ein_assign v2 no in
+    k1 = map letter n1 /\ k2 = map letter n2 /\ ko = map letter no /\
+    forall a b, In a (n1 ++ n2 ++ no) -> In b (n1 ++ n2 ++ no) -> letter a = letter b -> a = b.
+Proof. exact ein_letters_faithful. Qed.
+Print Assumptions C01_einsum_letters_identify_the_axes.
+
+Theorem C01_einsum_result_is_placed_by_the_output :
+  forall (V : Type) (inp : nat -> entries V) F BC CC (d1 d2 dout : list pex) rho v,
+  forallb plain dout = true -> in_bounds rho dout ->
+  In (map (lookup rho) (lnames dout), v) (einsum_result V inp F BC CC d1 d2 dout) ->
+  In (map (pidx rho) dout, v) (meval V inp F BC CC (lower_einsum_dot d1 d2 dout)).
+Proof. exact lower_einsum_dot_correct. Qed.
+Print Assumptions C01_einsum_result_is_placed_by_the_output.
+
+Example C01_einsum_example :
+  (* "a (b c), c b d -> d a": the subscripts 'abc,cbd->da' *)
+  let d1 := [PAx 1 2 false; PFl [PAx 2 3 false; PAx 3 4 false]] in
+  let d2 := [PAx 3 4 false; PAx 2 3 false; PAx 4 5 false] in
+  let dout := [PAx 4 5 false; PAx 1 2 false] in
+  einsum_dot_ok d1 d2 dout = true /\ ein_subscripts d1 d2 dout = "'abc,cbd->da'"%string.
+Proof. vm_compute. split; reflexivity. Qed.
